@@ -212,7 +212,19 @@ func c14line(c *h.Ctx, ls orb.LineString, z maptile.Zoom, cover maptile.Set, wha
 	d := func() map[string]interface{} {
 		return map[string]interface{}{"zoom": z, "line": sv(ls), "tile_space": fr, "cover": setString(cover), "entry": what}
 	}
-	for _, w := range witnesses(fr) {
+	// (tiles are demanded for segments the projection can resolve: a vertex within four floats of the previous one in both
+	// longitude and latitude may or may not project to a different point, depending on the last bits of the formula)
+	var kept orb.LineString
+	for _, p := range ls {
+		if n := len(kept); n > 0 {
+			q := kept[n-1]
+			if math.Abs(p[0]-q[0]) <= 4*math.Abs(math.Nextafter(q[0], math.Inf(1))-q[0]) && math.Abs(p[1]-q[1]) <= 4*math.Abs(math.Nextafter(q[1], math.Inf(1))-q[1]) {
+				continue
+			}
+		}
+		kept = append(kept, p)
+	}
+	for _, w := range witnesses(fractions(kept, z)) {
 		t := maptile.Tile{X: uint32(math.Floor(w[0])), Y: uint32(math.Floor(w[1])), Z: z}
 		c.Eval()
 		if !cover[t] {
